@@ -372,3 +372,83 @@ def transformed(case, rng, what):
 
 def is_descriptor(case, x):
     return any(all(a == b for a, b in zip(x, p)) for p in case["D"])
+
+
+# ------------------------------------------------------------------------------ invariances
+def assignment_ties(case):
+    """some descriptor is equidistant (exactly) from its two nearest grid points"""
+    D, G, Q, w, cell = _arrays(case)
+    for p in D:
+        ds = sorted(float(np.sum(pbc_delta(p, g, cell) ** 2)) for g in G)
+        if len(ds) > 1 and ds[1] - ds[0] <= 1e-12 * (1 + ds[1]):
+            return True
+    return False
+
+
+def is_descriptor_mod_cell(case, x):
+    cell = case["cell"]
+    return any(float(np.max(np.abs(pbc_delta(x, p, cell)))) == 0.0 for p in case["D"])
+
+
+def predicted_nontermination(case, W):
+    """fraction-of-points tuner: the target lim = W_i + 1/n is not below the total weight, so
+    `while flocal < lim` cannot terminate (flocal < sum W for every finite sigma)"""
+    if "fspread" in case["kw"]:
+        return False
+    fp = case["kw"].get("fpoints", 0.15)
+    delta = 1.0 / len(case["D"])
+    tot = float(sum(W))
+    for Wi in W:
+        lim = fp if fp > Wi else Wi + delta
+        if lim >= tot * (1 - 1e-12):
+            return True
+    return False
+
+
+def grid_weights_only(case):
+    from skmatter.neighbors import SparseKDE
+    D, G, Q, w, cell = _arrays(case)
+    est = SparseKDE(D, w, metric_params=None if cell is None else {"cell_length": cell}, **case["kw"])
+    return [float(x) for x in est._assign_descriptors_to_grids(G)[3]]
+
+
+def oracle_invariance(case, rec, rng, what, rtol=1e-6, atol=1e-6):
+    """metamorphic statement of C17: log-densities at non-descriptor queries are unchanged by the
+    transformation.  Returns (message or None, status, transformed case)."""
+    c2 = transformed(case, rng, what)
+    if what == "permute" and assignment_ties(case):
+        return None, "skipped_ties", c2
+    try:
+        if predicted_nontermination(c2, grid_weights_only(c2)):
+            return None, "skipped_nontermination", c2
+    except Exception:  # noqa
+        pass
+    est2, r2 = fit_impl(c2, timeout=10)
+    if est2 is None:
+        return ("the transformed problem (%s) fails to fit: %s %s" % (
+            c2["transform"], r2.get("error"), r2.get("error_msg")), "failed", c2)
+    score_impl(est2, c2, r2)
+    if "score_error" in r2:
+        return ("score_samples raised %s on the transformed problem (%s)" % (
+            r2["score_error"], c2["transform"]), "failed", c2)
+    if borderline(case, rec) or borderline(c2, r2):
+        return None, "skipped_borderline", c2
+    H1, H2 = np.array(rec["bandwidth"], float), np.array(r2["bandwidth"], float)
+    if not (np.all(np.isfinite(H1)) and np.all(np.isfinite(H2))):
+        return None, "skipped_nonfinite", c2
+    if min(reach_of(g["wlocal"]) for g in rec["grids"]) < 1e-4:
+        return None, "skipped_illcond", c2
+    if any(mixture_reference(case, rec)[1]) or any(mixture_reference(c2, r2)[1]):
+        return None, "skipped_illcond", c2
+    ncmp = 0
+    for k, x in enumerate(case["Q"]):
+        if is_descriptor_mod_cell(case, x) or is_descriptor_mod_cell(c2, c2["Q"][k]):
+            continue
+        a, b = rec["scores"][k], r2["scores"][k]
+        ncmp += 1
+        if a == b:
+            continue
+        if not (abs(a - b) <= atol + rtol * max(abs(a), abs(b))):
+            return ("log-density at query %d changes from %r to %r under %s" % (
+                k, a, b, c2["transform"]), "failed", c2)
+    return None, ("ok" if ncmp else "skipped_no_query"), c2
